@@ -57,13 +57,40 @@ func overlaps(a, b []byte) bool {
 	return pa < pb+uintptr(cap(b)) && pb < pa+uintptr(cap(a))
 }
 
+// spareSentinel is what the harness writes into memory it is entitled to use as a caller.
+const spareSentinel = 0x5C
+
+// scribbleSpare uses the spare capacity f[len(f):cap(f)] of every slice a call handed out, the way
+// `append(f, trailer...)` does (SRTP appends its authentication tag to a payload in place, RTP padding
+// is appended likewise): what a call returns is the caller's up to its capacity, so writing there must
+// change neither another returned slice nor what later calls return.
+func scribbleSpare(fs ...[]byte) {
+	for _, f := range fs {
+		s := f[len(f):cap(f)]
+		for i := range s {
+			s[i] = spareSentinel
+		}
+	}
+}
+
+// scribbleAll overwrites every byte (up to the capacity) of slices the caller is done with.
+func scribbleAll(fs ...[]byte) {
+	for _, f := range fs {
+		s := f[:cap(f)]
+		for i := range s {
+			s[i] = spareSentinel
+		}
+	}
+}
+
 type payloader interface {
 	Payload(mtu uint16, payload []byte) [][]byte
 }
 
 // observePay performs one Payload call on p with every ownership probe of C08/C16:
 // the caller's buffer is compared before/after, pointer overlap of each fragment with the
-// buffer is measured, the buffer is then overwritten and the fragments compared with a
+// buffer is measured, the spare capacity of every returned fragment is written to (as an in-place
+// append does), the buffer is then overwritten and the fragments compared with a
 // snapshot, and the result is compared with a twin instance that is always fed pristine,
 // never-overwritten copies (so state that aliases an overwritten buffer shows up later).
 func observePay(o *Toks, p, twin payloader, mtu uint16, input []byte) {
@@ -112,6 +139,8 @@ func observePayDeferred(p, twin payloader, mtu uint16, input []byte) *payRecord 
 	}
 	r.frags = frags
 	r.snap = cloneFrags(frags)
+	// the caller appends to every fragment in place (spare capacity only), then reuses its buffer
+	scribbleSpare(frags...)
 	for i := range buf {
 		buf[i] ^= 0xA5
 	}
